@@ -44,6 +44,8 @@ pub struct RotationSpec {
     pub sched: SchedKind,
     pub seed: u64,
     pub fine: bool,
+    #[serde(default)]
+    pub bb: u32,
 }
 
 const KINDS: [Kind; 5] = [Kind::Local, Kind::Secret, Kind::Public, Kind::PkePublic, Kind::PkeSecret];
@@ -137,12 +139,13 @@ pub fn run_rotation(w: &mut World, spec: &RotationSpec) {
     let mut handles = Vec::new();
     for (t, script) in spec.scripts.iter().enumerate() {
         let (baton, results, script, slot, mats, next_who) = (baton.clone(), results.clone(), script.clone(), slot.clone(), mats.clone(), next_who.clone());
-        let (seed, fine) = (spec.seed, spec.fine);
+        let (seed, fine, bb) = (spec.seed, spec.fine, spec.bb);
         handles.push(std::thread::spawn(move || {
             let be = backend(bk);
             let mut st = St::default();
             if fine {
                 crate::ffiyield::set_hook(Some((Arc::new(Y(baton.clone())), t)));
+                crate::ffiyield::bb_enable(bb);
             }
             for (i, op) in script.iter().enumerate() {
                 {
@@ -152,6 +155,7 @@ pub fn run_rotation(w: &mut World, spec: &RotationSpec) {
                         g = cv.wait(g).unwrap_or_else(|e| e.into_inner());
                     }
                 }
+                crate::ffiyield::bb_op_begin(mix(seed, "rot-bb", (t as u64) << 32 | i as u64));
                 rngsvc::begin(&RngSpec::Prng { seed: mix(seed, "rot-op", (t as u64) << 32 | i as u64) });
                 // (verdict, description); verdict "ok" or a violation class
                 let verdict: (String, String) = (|| {
@@ -275,6 +279,7 @@ pub fn run_rotation(w: &mut World, spec: &RotationSpec) {
                 }
                 cv.notify_all();
             }
+            crate::ffiyield::bb_enable(0);
             crate::ffiyield::set_hook(None);
         }));
     }
